@@ -330,15 +330,19 @@ def main(argv):
     try:
         ctx, mod = run_property(prop, tier)
     except FactsError as e:
-        # the tree does not build in some configuration: that is itself a finding for C10, and
-        # for every other property it means nothing could be analysed -> fail closed
+        return facts_failure(prop, tier, seed, t0, e)
+    except Exception:  # a rule could not digest the tree it was given: fail closed, never silently pass
+        import traceback
+        tb = traceback.format_exc()
         os.makedirs(os.path.join(VERIF, 'replay'), exist_ok=True)
-        rp = os.path.join(VERIF, 'replay', '%s-build.json' % prop)
+        rp = os.path.join(VERIF, 'replay', '%s-analysis-error.json' % prop)
         with open(rp, 'w') as fh:
-            json.dump({'property': prop, 'rule': 'build', 'key': 'cargo-check', 'detail': str(e)}, fh, indent=1)
-        print(str(e)[-2000:])
+            json.dump({'property': prop, 'rule': 'analysis-error', 'key': 'exception', 'detail': tb}, fh, indent=1)
+        print(tb[-3000:])
+        print('-: rule=analysis-error instance=exception')
+        print('    the rule library raised an exception on this tree (an unexpected program shape): nothing was decided, failing closed')
         print('VIOLATION property=%s replay=%s' % (prop, rp))
-        write_evidence(prop, tier, seed, None, time.time() - t0, 1, [], error=str(e)[-1500:], mod=None)
+        write_evidence(prop, tier, seed, None, time.time() - t0, 1, [], error='analysis error: ' + tb[-1200:], mod=None)
         return 1
     if tier == 'thorough' and not a.replay and not os.environ.get('RPP_NO_SELFTEST') and REPO == '/repo':
         # E5: every rule must fire on its seeded mutant (scratch copies outside /repo and /verif, removed at once)
@@ -397,6 +401,21 @@ def main(argv):
     if not a.no_evidence and not a.replay:
         write_evidence(prop, tier, seed, ctx, wall, len(viol), listed, mod=mod)
     return rc
+
+
+
+def facts_failure(prop, tier, seed, t0, e):
+    """the tree does not build in some configuration: for C10 that is itself the finding, for every other property
+    nothing could be analysed -> fail closed"""
+    os.makedirs(os.path.join(VERIF, 'replay'), exist_ok=True)
+    rp = os.path.join(VERIF, 'replay', '%s-build.json' % prop)
+    with open(rp, 'w') as fh:
+        json.dump({'property': prop, 'rule': 'build', 'key': 'cargo-check', 'detail': str(e)}, fh, indent=1)
+    print(str(e)[-2000:])
+    print('-: rule=build instance=cargo-check')
+    print('VIOLATION property=%s replay=%s' % (prop, rp))
+    write_evidence(prop, tier, seed, None, time.time() - t0, 1, [], error=str(e)[-1500:], mod=None)
+    return 1
 
 
 def write_evidence(prop, tier, seed, ctx, wall, nviol, listed, error=None, mod=None):
